@@ -3,6 +3,6 @@ CONSTANTS
   MaxFrags = 2
   MaxNodes = 7
   FieldPool = {}
-  Extended = {}
-INVARIANTS Emit
+  Extended = {"noTypename"}
+INVARIANTS EmitExt
 CHECK_DEADLOCK FALSE
